@@ -24,7 +24,7 @@ def run(rep):
     obls += [(rounding.rounding, ("SpecialRounding", k, -50, 75, 1500)) for k in keys]
     results = base.run_obligations(rep, obls)
     cands = [c for x in results for c in x["cands"]]
-    ims_open = any((x["cands"] or x["inconclusive"]) for x in results if x["name"].startswith("get_imsaak"))
+    ims_open = any((x["cands"] or x["inconclusive"]) for x in results if x.get("fn") == "imsaak")
     if ims_open and not cands:
         pp.imsaak_grid(rep)      # an undecided get_imsaak obligation (e.g. changed signature): let the public-API judge look
     if cands:
@@ -38,6 +38,7 @@ def run(rep):
             kp.confirm(rep, kres, {"twilight", "asr"}, 62, key_prefix="")
         if not rep.violations:
             rep.inconclusive.append("solver counterexamples were not reproduced natively; first: %r" % (cands[0],))
+    pp.purity_native(rep)      # "shifts exactly that prayer": of this call, whatever was asked before
     rep.samples = [{"obligation": o["name"], "status": o["status"], "paths": o.get("paths")} for o in rep.obligations[:6]]
 
 
